@@ -201,7 +201,7 @@ func TestP1Tuples(t *testing.T) {
 		}
 	}
 	maxArity := ev.Total(2, 3)
-	rec.Rule(fmt.Sprintf("interpreter with MaxOps = %d: every name in systemdict (%d) and every CIDInit operator (%d, inside begincmap) applied to every operand tuple of arity 0..%d from a hostile pool of %d values (boundary and huge integers, reals, strings incl. 65536 bytes, empty/nested/self-referential arrays, a procedure whose 12 slots all hold itself, dictionaries incl. systemdict and errordict, the file object, mark, operator objects, StandardEncoding). Each program runs in a child process under a 6 GB address-space limit and a 10 s watchdog (confirmed alone with 30 s; to bound the run time a batch is given up after 3 hangs or deaths and at most two are confirmed per run). Plus CMap block choreography: every sequence of up to %d events over begincmap, endcmap and the begin/end operators (with a valid entry) of every pair of the seven block kinds, i.e. all out-of-order interleavings. Oracle: the call returns a result or an error - no panic, no process abort, no hang. Non-trivial: every tuple (the operator is reached by construction); distinct by program text.", interpMaxOps, len(sys), len(cid), maxArity, len(pool), ev.Total(4, 5)))
+	rec.Rule(fmt.Sprintf("interpreter with MaxOps = %d: every name in systemdict (%d) and every CIDInit operator (%d, inside begincmap) applied to every operand tuple of arity 0..%d from a hostile pool of %d values (boundary and huge integers, reals, strings incl. 65536 bytes, empty/nested/self-referential arrays, a procedure whose 12 slots all hold itself, dictionaries incl. systemdict and errordict, the file object, mark, operator objects, StandardEncoding). Each program runs in a child process under a 6 GB address-space limit and a 10 s watchdog (confirmed alone with 30 s; to bound the run time a batch is given up after 3 hangs or deaths and at most two are confirmed per run). Plus CMap block choreography: every sequence of up to %d events over begincmap, endcmap and the begin/end operators (with a valid entry) of every pair of the seven block kinds, i.e. all out-of-order interleavings; and a well-formed block of each kind with each operand of its entry replaced by each value of the hostile pool. Oracle: the call returns a result or an error - no panic, no process abort, no hang. Non-trivial: every tuple (the operator is reached by construction); distinct by program text.", interpMaxOps, len(sys), len(cid), maxArity, len(pool), ev.Total(4, 5)))
 	var cases []*hcase
 	k := 0
 	addOps := func(ops []string, prefix string) {
@@ -248,6 +248,28 @@ func TestP1Tuples(t *testing.T) {
 	kinds := []struct{ name, entry string }{
 		{"codespacerange", "<00> <ff>"}, {"cidchar", "<01> 7"}, {"cidrange", "<02> <09> 7"},
 		{"notdefchar", "<03> 1"}, {"notdefrange", "<04> <05> 1"}, {"bfchar", "<06> <0041>"}, {"bfrange", "<07> <08> [<0041> /x]"},
+	}
+	// a well-formed block of each kind with one operand of its entry replaced
+	// by each value of the hostile pool (cyclic arrays and procedures, huge
+	// strings, dictionaries ...): the operand reaches the end* operator's
+	// type and range checks - and whatever those do with a rejected value
+	for _, kd := range kinds {
+		fields := strings.Fields(kd.entry)
+		if kd.name == "bfrange" {
+			fields = []string{"<07>", "<08>", "[<0041> /x]"}
+		}
+		for pos := range fields {
+			for _, r := range pool {
+				k++
+				if !ev.Mine(k) {
+					continue
+				}
+				entry := append([]string{}, fields...)
+				entry[pos] = psgen.Spell(r.Toks)
+				prog := "/CIDInit /ProcSet findresource begin 12 dict begin begincmap 1 begin" + kd.name + " " + strings.Join(entry, " ") + " end" + kd.name + " endcmap /CMapName /X def CMapName currentdict /CMap defineresource pop end end"
+				cases = append(cases, &hcase{Target: "interp", Data: []byte(prog)})
+			}
+		}
 	}
 	maxLen := ev.Total(4, 5)
 	for i1, k1 := range kinds {
